@@ -2,9 +2,10 @@
 
 One case = one curve (synthetic or recorded) brought into a state (fitted / one of the
 unfitted states) plus a feature request (subset in arbitrary order, type filter), a
-force scale factor and a perturbation of the retract segment.  All oracles are relational
-or range oracles that follow from the property statement and the feature definitions in
-rate/features.py; no feature value is recomputed.
+force scale factor and a perturbation of the retract segment.  The oracles are range and
+relational oracles that follow from the property statement and the feature definitions in
+rate/features.py; only the three counting features (size, contact point inside the range,
+relative size of the indentation part) are compared with an independent one-line definition.
 """
 import copy
 
@@ -37,7 +38,8 @@ PRE_SETS = [["compute_tip_position"], ["compute_tip_position", "correct_force_of
 RULE = ("Hypothesis draws (a) fitted cases: curve = synthetic (5 models, 60-1500 approach points i.e. short < 600 and "
         "long, noise 0..3e-2, tilt, 0-8 spikes injected into the indentation part, optional force offset making the "
         "maximum approach force zero/negative) or recorded good / bad JPK curve with the default preprocessing; "
-        "fit = any shipped model, approach (sometimes retract) segment, contact point free, or fixed at a chosen "
+        "fit = any shipped model, approach (sometimes retract) segment, x axis tip position (sometimes measured height), "
+        "full / absolute / relative-cp range, gcf_k 1 / 0.5 / 2, contact point free, or fixed at a chosen "
         "sample near the start / the end / inside, or fixed outside the data range; request = feature subset in "
         "arbitrary order x which_type in 6 spellings (+ an unknown name); power-of-two and arbitrary force scale "
         "factor; retract perturbation (values / spikes / NaN / constant). (b) unfitted cases: fresh, preprocessed "
@@ -55,9 +57,9 @@ ASSUMPTIONS = [
     "x unit (1/m resp. m) but no force unit",
     "power-of-two factors (2^-40..2^60) must give bit-identical features: scaling by 2^j commutes exactly with "
     "+, -, *, /, sqrt, gaussian filtering and LAPACK lstsq in the absence of under/overflow",
-    "arbitrary factors: rtol 1e-9 (atol 1e-13: log(1 + v) of a tiny v carries an absolute error of 20 x 1.1e-16), asserted only when the residuals are noise dominated (synthetic "
-    "noise >= 1e-3 or recorded curve): for a noise-free exact fit the residuals are rounding noise and are "
-    "legitimately rescrambled by a non-dyadic factor",
+    "arbitrary factors: rtol 1e-9 (atol 1e-13: log(1 + v) of a tiny v carries an absolute error of 20 x 1.1e-16), "
+    "asserted only when the residuals are noise dominated (synthetic noise >= 1e-3 or recorded curve): for a "
+    "noise-free exact fit the residuals are rounding noise and are legitimately rescrambled by a non-dyadic factor",
     "the scaled curve is a deep copy whose force / fit / fit residuals columns are multiplied and whose "
     "baseline and modulus parameters (E, E_S, E_L) and chi_sqr are scaled; it is not refitted",
     "feat_bin_size does not depend on the fit (number of approach samples >= 600); in unfitted states it may be "
@@ -111,7 +113,11 @@ def st_fitted(draw):
     fit = {"model_key": draw(st.sampled_from(refmodels.MODELS)),
            "segment": draw(st.sampled_from([0] * 9 + [1])),
            "weight_cp": draw(st.sampled_from([0, 1e-7, 5e-7, 2e-6])),
-           "e_factor": 10 ** draw(st.floats(-0.5, 0.5)), "cp": cp}
+           "e_factor": 10 ** draw(st.floats(-0.5, 0.5)), "cp": cp,
+           "x_axis": draw(st.sampled_from(["tip position"] * 5 + ["height (measured)"])),
+           "gcf_k": draw(st.sampled_from([1.0, 1.0, 1.0, 0.5, 2.0])),
+           "range": draw(st.sampled_from([None, None, None, "absolute", "relative cp"])),
+           "range_frac": sorted([draw(st.floats(0.0, 1.0)), draw(st.floats(0.0, 1.0))])}
     mod = {"spikes": draw(st.sampled_from([0, 0, 1, 2, 4, 8])), "spike_amp": draw(st.floats(0.02, 1.0)),
            "spike_width": draw(st.integers(1, 4)), "seed": draw(st.integers(0, 2 ** 20)),
            "shift": draw(st.sampled_from(["none"] * 8 + ["max0", "negative"]))}
@@ -173,7 +179,7 @@ def build(case):
     return idnt
 
 
-def modify(idnt, mod):
+def modify(idnt, mod, src):
     """inject spikes into the indentation part of the approach force and / or shift the force"""
     seg0 = np.where(idnt["segment"] == 0)[0]
     if seg0.size < 8:
@@ -182,7 +188,12 @@ def modify(idnt, mod):
     rng = np.random.RandomState(mod["seed"])
     ya = f[seg0]
     span = float(np.max(ya) - np.min(ya)) or 1e-9
-    lo = int(0.6 * seg0.size)      # the last 40 % of the approach are (mostly) in contact
+    if src["kind"] == "synth":      # true indentation part
+        a = synth.arrays(src["curve"])
+        lo = int(np.sum(a["tip"][:seg0.size] >= src["curve"]["params"]["contact_point"]))
+    else:                           # the last quarter of a recorded approach
+        lo = int(0.75 * seg0.size)
+    lo = min(lo, seg0.size - 1)
     for _ in range(mod["spikes"]):
         i = rng.randint(lo, seg0.size)
         w = mod["spike_width"]
@@ -201,7 +212,8 @@ def do_fit(idnt, fit, range_x=None):
     ek = refmodels.EKEY[fit["model_key"]]
     pi[ek].set(value=pi[ek].value * fit["e_factor"])
     cp = fit["cp"]
-    x = idnt["tip position"][idnt["segment"] == 0]
+    xcol = fit.get("x_axis", "tip position")
+    x = idnt[xcol][idnt["segment"] == 0]
     if cp["mode"] != "free" and x.size >= 2:
         n = x.size
         step = (x[0] - x[-1]) / (n - 1)
@@ -217,16 +229,25 @@ def do_fit(idnt, fit, range_x=None):
         else:
             val = np.min(x) - (0.001 + cp["frac"]) * span
         pi["contact_point"].set(value=float(val), vary=False)
-    kw = dict(model_key=fit["model_key"], params_initial=pi, x_axis="tip position", y_axis="force",
-              segment=fit["segment"], weight_cp=fit["weight_cp"], range_type="absolute",
-              range_x=list(range_x) if range_x is not None else [0, 0], method="leastsq", gcf_k=1.0,
-              optimal_fit_edelta=False)
+    rtype = "absolute"
+    if range_x is None and fit.get("range") and x.size >= 2:
+        rtype = fit["range"]
+        lo, span = float(np.min(x)), float(np.max(x) - np.min(x))
+        a, b = fit["range_frac"]
+        if rtype == "absolute":
+            range_x = [lo + a * span, lo + b * span]
+        else:
+            range_x = [-(0.05 + a) * span, (0.05 + b) * span]
+    kw = dict(model_key=fit["model_key"], params_initial=pi, x_axis=xcol, y_axis="force",
+              segment=fit["segment"], weight_cp=fit["weight_cp"], range_type=rtype,
+              range_x=list(range_x) if range_x is not None else [0, 0], method="leastsq",
+              gcf_k=fit.get("gcf_k", 1.0), optimal_fit_edelta=False)
     idnt.fit_model(**kw)
 
 
 def cp_class(idnt):
     fp = idnt.fit_properties
-    x = idnt["tip position"][idnt["segment"] == 0]
+    x = idnt[fp["x_axis"]][idnt["segment"] == 0]
     cp = fp["params_fitted"]["contact_point"].value
     if x.size == 0 or not np.isfinite(cp):
         return "undefined"
@@ -355,12 +376,14 @@ def check_fitted(case, ctx):
     src, fit, mod = case["src"], case["fit"], case["mod"]
     kind = src["kind"] if src["kind"] == "synth" else src["pool"]
     classes = [kind, "fit_" + fit["model_key"], "cpmode_" + fit["cp"]["mode"], f"segment{fit['segment']}",
-               "shift_" + mod["shift"], "spikes" if mod["spikes"] else "no_spikes"]
+               "shift_" + mod["shift"], "spikes" if mod["spikes"] else "no_spikes",
+               "x_" + fit["x_axis"].split()[0], "gcf_1" if fit["gcf_k"] == 1 else "gcf_not_1",
+               "range_" + str(fit["range"]).split()[0]]
     idnt = build(case)
     if idnt is None:
         ctx.note_case(case, nontrivial=False, classes=classes + ["preprocessing_rejected"])
         return
-    modify(idnt, mod)
+    modify(idnt, mod, src)
     with fitgen.catch() as box:
         do_fit(idnt, fit)
     if box["exc"] is not None:
@@ -376,7 +399,7 @@ def check_fitted(case, ctx):
     napp = int(seg0.sum())
     ya = idnt["force"][seg0]
     ymax = float(np.max(ya)) if napp else float("nan")
-    xa = idnt["tip position"][seg0]
+    xa = idnt[idnt.fit_properties["x_axis"]][seg0]
     if napp < 2 or not xa[0] > xa[-1]:
         # datax_apr states its precondition with an assert ("Approach from large distances towards lower")
         ctx.note_case(case, nontrivial=False, classes=classes + ["approach_not_descending_skipped"])
